@@ -16,7 +16,8 @@ import re
 from .. import doccheck, editgen, engine_oracles, engine_run, gen, ooxml, sem
 from . import c14
 
-PROFILE = {"hyperlink": 0.0, "vmerge": 0.0, "point_comment": 0.0, "field": 0.0}
+# (an ALL-CAPS bold paragraph is shown as a heading only by heuristic: rewriting its words changes that, in the commit only)
+PROFILE = {"hyperlink": 0.0, "vmerge": 0.0, "point_comment": 0.0, "field": 0.0, "caps_heading": 0.0}
 PROFILES = {"default": PROFILE,
             "redlined": dict(PROFILE, **{"del": 0.35, "blocks": (1, 3), "runs": (3, 7)}, ins=0.25, subst=0.15, split_identical=0.3,
                              table=0.1, comment=0.2),
